@@ -377,7 +377,11 @@ func doPrintTree(cfg, sexp string) string {
 
 func runSmap(ops []string) *sourcemap.SourceMap {
 	m := sourcemap.New()
-	for _, op := range ops {
+	// a second recorder is alive and in use at the same time: recorders are independent of each other
+	other := sourcemap.New()
+	for i, op := range ops {
+		other.AddNamedMapping(1000+i, 7*i, "other")
+		other.AdvanceString("xy\n")
 		f := strings.Split(op, ":")
 		switch f[0] {
 		case "m":
@@ -396,6 +400,14 @@ func runSmap(ops []string) *sourcemap.SourceMap {
 			_ = m.SourceMap()
 		}
 	}
+	_ = other.SourceMap()
+	// … and a third one is created and filled after everything has been recorded, before the map is asked for
+	late := sourcemap.New()
+	for i := 0; i < len(ops)+2; i++ {
+		late.AddMapping(2000+i, 3*i)
+		late.AdvanceColumn(2)
+	}
+	_ = late.SourceMap()
 	return m.SourceMap()
 }
 
